@@ -80,6 +80,8 @@ fn captured_deadline(
         "capture_diff_slices_deadline",
         "TextDiff::configure().deadline(..)",
         "TextDiff::configure().timeout(..)",
+        "TextDiff::configure().deadline(..).clone()",
+        "TextDiff::configure().timeout(..).clone()",
     ];
     let r = subject(|| {
         let clock = arm_clock(k);
@@ -95,7 +97,7 @@ fn captured_deadline(
                     .ops()
                     .to_vec()
             }
-            _ => {
+            3 => {
                 let (o, nn) = (toks(old), toks(new));
                 TextDiff::configure()
                     .algorithm(alg)
@@ -103,6 +105,21 @@ fn captured_deadline(
                     .diff_slices(&o, &nn)
                     .ops()
                     .to_vec()
+            }
+            // a cloned configuration carries the same limit
+            4 => {
+                let (o, nn) = (toks(old), toks(new));
+                let mut c = TextDiff::configure();
+                c.algorithm(alg).deadline(some_deadline().unwrap());
+                let c2 = c.clone();
+                c2.diff_slices(&o, &nn).ops().to_vec()
+            }
+            _ => {
+                let (o, nn) = (toks(old), toks(new));
+                let mut c = TextDiff::configure();
+                c.algorithm(alg).timeout(Duration::from_secs(86_400));
+                let c2 = c.clone();
+                c2.diff_slices(&o, &nn).ops().to_vec()
             }
         };
         probes = clock.probes.get();
@@ -166,8 +183,8 @@ pub fn check_input(alg: Algorithm, old8: &[u8], new8: &[u8], deep: bool) -> Resu
 
     let cap_none = subject(|| similar::capture_diff(alg, old8, 0..n, new8, 0..m))
         .map_err(|p| format!("capture_diff: panic: {}", p))?;
-    let mut cap_probes_inf = [0u64; 4];
-    for which in 0..4 {
+    let mut cap_probes_inf = [0u64; 6];
+    for which in 0..6 {
         let (ops, probes) = captured_deadline(which, alg, old8, new8, u64::MAX)?;
         runs += 1;
         cap_probes_inf[which] = probes;
@@ -182,13 +199,38 @@ pub fn check_input(alg: Algorithm, old8: &[u8], new8: &[u8], deep: bool) -> Resu
             return Err(format!(
                 "captured entry point #{} ({}) consulted the clock {} times, the raw algorithm {} times: the deadline is not plumbed through",
                 which,
-                ["capture_diff_deadline", "capture_diff_slices_deadline", "TextDiffConfig::deadline", "TextDiffConfig::timeout"][which],
+                ["capture_diff_deadline", "capture_diff_slices_deadline", "TextDiffConfig::deadline", "TextDiffConfig::timeout", "a clone of a TextDiffConfig with a deadline", "a clone of a TextDiffConfig with a timeout"][which],
                 probes,
                 pinf
             ));
         }
     }
 
+    // limits that can never expire, against the REAL clock (virtual clock disarmed): the largest
+    // representable timeout, one beyond what an Instant can hold, a deadline a century away
+    for (i, name) in ["timeout(Duration::MAX)", "timeout(Duration::from_secs(u64::MAX))", "timeout(10^11 s)", "deadline(now + 100 years)"].iter().enumerate() {
+        let ops = subject(|| {
+            crate::instr::disarm_all();
+            let (o, nn) = (toks(old8), toks(new8));
+            let mut c = TextDiff::configure();
+            c.algorithm(alg);
+            match i {
+                0 => c.timeout(Duration::MAX),
+                1 => c.timeout(Duration::from_secs(u64::MAX)),
+                2 => c.timeout(Duration::from_secs(100_000_000_000)),
+                _ => c.deadline(std::time::Instant::now() + Duration::from_secs(3_155_760_000)),
+            };
+            c.diff_slices(&o, &nn).ops().to_vec()
+        })
+        .map_err(|p| format!("TextDiff::configure().{}: panic: {}", name, p))?;
+        runs += 1;
+        if ops != cap_none {
+            return Err(format!(
+                "TextDiff::configure().{} (a limit that never expires) gives {:?} but no deadline gives {:?}",
+                name, ops, cap_none
+            ));
+        }
+    }
     // deadline already expired before the start: the whole run must be cheap, whether or not
     // the algorithm ever asks the clock
     {
@@ -314,7 +356,7 @@ pub fn check_input(alg: Algorithm, old8: &[u8], new8: &[u8], deep: bool) -> Resu
             )
         })?;
         fp.add(ops_fp(&ops0));
-        for which in 1..4 {
+        for which in 1..6 {
             let (ops, _) = captured_deadline(which, alg, old8, new8, k)?;
             runs += 1;
             if ops != ops0 {
